@@ -1,6 +1,7 @@
 package main
 
 import (
+	"strings"
 	"go/constant"
 	"go/token"
 	"go/types"
@@ -94,6 +95,15 @@ func factsAt(b *ssa.BasicBlock) []fact {
 				out = append(out, fact{x, nil, token.EQL, iff})
 			} else {
 				out = append(out, fact{x, nil, token.NEQ, iff})
+			}
+		default:
+			// any other boolean value (a bool result extracted from a call, a phi, …)
+			if cond != nil {
+				if pol {
+					out = append(out, fact{cond, nil, token.EQL, iff})
+				} else {
+					out = append(out, fact{cond, nil, token.NEQ, iff})
+				}
 			}
 		}
 	}
@@ -262,4 +272,116 @@ func intRange(t types.Type, wordBits int) (lo, hi *big.Int, ok bool) {
 		lo = big.NewInt(0)
 	}
 	return lo, hi, true
+}
+
+// entryFacts: what is known about received entries on entry to block b, as strings over
+// normal forms: "acl(E)" — the access controller accepted E; "defined(E)" — E's clock passed
+// Defined(); "sig(E)" — E's identity signatures are non-nil. Facts established inside a repo
+// helper that returns a bool are imported where that bool is known to be true (predicate
+// wrappers: `ok, err := b.headIsAcceptable(h); if !ok { continue }`).
+func (c *Ctx) entryFacts(b *ssa.BasicBlock, depth int) map[string]bool {
+	out := map[string]bool{}
+	f := b.Parent()
+	// access-controller acceptance
+	eachCall(f, func(call ssa.CallInstruction) {
+		if methodName(call) != "CanAppend" || !c.isMethodOn(call, "CanAppend", ifaceLogAC) {
+			return
+		}
+		ev := errResult(call)
+		a := argsOf(call)
+		if ev == nil || len(a) == 0 {
+			return
+		}
+		for _, t := range errTests(ev) {
+			if t.Ok != nil && branchCovers(t.Ok, b) {
+				out["acl("+nf(strip(a[0]))+")"] = true
+			}
+		}
+	})
+	for _, ft := range factsAt(b) {
+		switch {
+		case ft.Y == nil && ft.Op == token.EQL:
+			if dc, ok := ft.X.(*ssa.Call); ok && methodName(dc) == "Defined" && dc.Common().IsInvoke() {
+				r := nf(dc.Common().Value)
+				if strings.HasSuffix(r, ".GetClock()") {
+					out["defined("+strings.TrimSuffix(r, ".GetClock()")+")"] = true
+				}
+			}
+			// predicate wrapper known to have returned true
+			if ex, ok := ft.X.(*ssa.Extract); ok && ex.Index == 0 && depth < 2 {
+				if call, ok := ex.Tuple.(*ssa.Call); ok {
+					for k := range c.trueFacts(call, depth) {
+						out[k] = true
+					}
+				}
+			}
+			if call, ok := ft.X.(*ssa.Call); ok && depth < 2 && methodName(call) != "Defined" {
+				for k := range c.trueFacts(call, depth) {
+					out[k] = true
+				}
+			}
+		case ft.Y != nil && ft.Op == token.NEQ:
+			x, y := ft.X, ft.Y
+			if isNilConst(x) {
+				x, y = y, x
+			}
+			if isNilConst(y) {
+				r := nf(x)
+				if strings.HasSuffix(r, ".GetIdentity().Signatures") {
+					out["sig("+strings.TrimSuffix(r, ".GetIdentity().Signatures")+")"] = true
+				}
+			}
+		}
+	}
+	return out
+}
+
+// trueFacts: the entry facts that hold whenever the repo function called here returns true
+// (first result), translated to the caller's arguments.
+func (c *Ctx) trueFacts(call *ssa.Call, depth int) map[string]bool {
+	g := call.Call.StaticCallee()
+	if g == nil || g.Blocks == nil || g.Pkg == nil || !inRepo(g.Pkg.Pkg) {
+		return nil
+	}
+	if g.Signature.Results().Len() == 0 || typeStr(g.Signature.Results().At(0).Type()) != "bool" {
+		return nil
+	}
+	var acc map[string]bool
+	eachInstr(g, func(in ssa.Instruction) {
+		r, ok := in.(*ssa.Return)
+		if !ok || len(r.Results) == 0 {
+			return
+		}
+		mayBeTrue := false
+		for _, v := range resolveSpill(r.Results[0]) {
+			k, isK := v.(*ssa.Const)
+			if !isK || k.Value == nil || k.Value.ExactString() != "false" {
+				mayBeTrue = true
+			}
+		}
+		if !mayBeTrue {
+			return
+		}
+		fs := c.entryFacts(r.Block(), depth+1)
+		if acc == nil {
+			acc = fs
+		} else {
+			for k := range acc {
+				if !fs[k] {
+					delete(acc, k)
+				}
+			}
+		}
+	})
+	out := map[string]bool{}
+	for k := range acc {
+		m := k
+		for i, p := range g.Params {
+			if i < len(call.Call.Args) {
+				m = strings.ReplaceAll(m, "param:"+p.Name(), nf(strip(call.Call.Args[i])))
+			}
+		}
+		out[m] = true
+	}
+	return out
 }
